@@ -106,4 +106,41 @@ out.append("contract " + RK + "\n"
 out.append("job tb_fn_read_entry_u8\n  props C08 C07\n  pre vt_p = nondet_uchar(); vt_dl = nondet_ulong(); vt_val = nondet_ulong(); vt_p2 = nondet_uchar(); vt_dl2 = nondet_ulong();\n  enforce " + RK + "\n"
            "  replace nop::EncodingIO<unsigned long>::Read<nop::PedanticBufferReader>\n  timeout 1800\n"
            "  note modular and unbounded: duplicate detection, declared size smaller / equal / larger than the value, padding skipped exactly — every size, every buffer length up to 2^40\n")
+# Write side: (w1) EncodingIO<uint64_t>::Write over PedanticBufferWriter against the class rules; (w2) WriteEntry of an
+# active uint8_t entry with (w1) replaced: id, declared size == bytes that follow (value, no padding for a handle-free
+# value), nothing at all for an empty entry; every buffer length and position.
+out.append("c #define PW_PRE(w) (FRESH(w) && (w)->size_ <= VT_MAXLEN && (w)->index_ <= (w)->size_ && FRESHN((w)->buffer_, (w)->size_))")
+out.append("c #define PW_ROOM(w) ((w)->size_ - OLD((w)->index_))")
+WK = "nop::EncodingIO<unsigned long>::Write<nop::PedanticBufferWriter>"
+out.append("contract " + WK + "\n"
+  "  requires PW_PRE(writer) && FRESH(value) && vt_dl == VT_LEN_UINT(*value)\n"
+  "  assigns vt_dl <= writer->size_ - writer->index_: __CPROVER_object_upto(writer->buffer_ + writer->index_, vt_dl)\n"
+  "  assigns (vt_dl > writer->size_ - writer->index_ && writer->index_ < writer->size_): writer->buffer_[writer->index_]\n"
+  "  assigns writer->index_\n"
+  "  ensures writer->index_ <= writer->size_\n"
+  "  ensures PW_ROOM(writer) >= VT_LEN_UINT(*value) ==> (ERR(RET) == 0 && writer->index_ == OLD(writer->index_) + VT_LEN_UINT(*value) && writer->buffer_[OLD(writer->index_)] == VT_PREFIX_UINT(*value))\n"
+  "  ensures (PW_ROOM(writer) >= VT_LEN_UINT(*value) && vt_k < VT_LEN_UINT(*value) - 1) ==> writer->buffer_[OLD(writer->index_) + 1 + vt_k] == (unsigned char)((*value) >> (8 * (vt_k & 7)))\n"
+  "  ensures PW_ROOM(writer) < VT_LEN_UINT(*value) ==> (ERR(RET) == E_WriteLimitReached && writer->index_ <= OLD(writer->index_) + 1)\n")
+out.append("job tb_fn_write_u64_ped\n  props C06 C03\n  pre vt_k = nondet_ulong(); vt_dl = nondet_ulong();\n  enforce " + WK + "\n  timeout 900\n")
+WE = "nop::Encoding<vt::TW>::WriteEntry<unsigned char, 1UL, nop::PedanticBufferWriter>"
+SZ = "(ENT_VAL(entry) <= 0x7f ? 1UL : 2UL)"
+out.append("contract " + WE + "\n"
+  "  requires PW_PRE(writer) && FRESH(entry)\n"
+  "  assigns __CPROVER_object_whole(writer->buffer_), writer->index_\n"
+  "  ensures writer->index_ <= writer->size_\n"
+  "  ensures ENT_EMPTY(entry) ==> (ERR(RET) == 0 && writer->index_ == OLD(writer->index_))\n"
+  "  ensures (!ENT_EMPTY(entry) && PW_ROOM(writer) >= 2 + " + SZ + ") ==> (ERR(RET) == 0 && writer->index_ == OLD(writer->index_) + 2 + " + SZ + ")\n"
+  "  ensures (!ENT_EMPTY(entry) && PW_ROOM(writer) >= 2 + " + SZ + ") ==> (writer->buffer_[OLD(writer->index_)] == 1 && writer->buffer_[OLD(writer->index_) + 1] == " + SZ + ")\n"
+  "  ensures (!ENT_EMPTY(entry) && PW_ROOM(writer) >= 2 + " + SZ + " && ENT_VAL(entry) <= 0x7f) ==> writer->buffer_[OLD(writer->index_) + 2] == ENT_VAL(entry)\n"
+  "  ensures (!ENT_EMPTY(entry) && PW_ROOM(writer) >= 2 + " + SZ + " && ENT_VAL(entry) > 0x7f) ==> (writer->buffer_[OLD(writer->index_) + 2] == FMT_U8 && writer->buffer_[OLD(writer->index_) + 3] == ENT_VAL(entry))\n"
+  "  ensures (!ENT_EMPTY(entry) && PW_ROOM(writer) < 2 + " + SZ + ") ==> ERR(RET) == E_WriteLimitReached\n")
+out.append("contract nop::PedanticBufferWriter::Skip(unsigned long, unsigned char)\n"
+  "  requires FRESH(this) && this->size_ <= VT_MAXLEN && this->index_ <= this->size_ && FRESHN(this->buffer_, this->size_)\n"
+  "  assigns padding_bytes <= this->size_ - this->index_: __CPROVER_object_upto(this->buffer_ + this->index_, padding_bytes)\n"
+  "  assigns this->index_\n"
+  "  ensures this->index_ <= this->size_\n"
+  "  ensures padding_bytes <= this->size_ - OLD(this->index_) ==> (ERR(RET) == 0 && this->index_ == OLD(this->index_) + padding_bytes)\n"
+  "  ensures padding_bytes > this->size_ - OLD(this->index_) ==> (ERR(RET) == E_WriteLimitReached && this->index_ == OLD(this->index_))\n")
+out.append("job tb_fn_write_entry_u8\n  props C06 C03 C07\n  pre vt_k = nondet_ulong(); vt_dl = 1;\n  enforce " + WE + "\n  replace " + WK + "\n  replace nop::PedanticBufferWriter::Skip(unsigned long, unsigned char)\n  tier thorough\n  timeout 3600\n"
+           "  note modular: the entry's id and declared size go through the replaced uint64 encoder contract; declared size == bytes that follow\n")
 print("\n".join(out))
